@@ -102,13 +102,14 @@ type world struct {
 	// Ties lists hostnames / addresses whose owner is decided by a tie (see tieTokens).
 	Ties []tieToken
 
-	r       *rand.Rand
-	names   map[string]bool
-	svcs    []svcInfo // every hostname that exists, for destinations
-	gwNames []string  // ns/name of generated Gateways
-	multiNS string    // hostname planted in several namespaces with equal timestamps
-	dnsEps  bool      // some DNS ServiceEntry has endpoints
-	p2NS    string    // namespace of the second sidecar proxy (drawn first so that shapes can be planted around it)
+	r         *rand.Rand
+	names     map[string]bool
+	usedNames map[string][]string // prefix -> names drawn so far (any namespace)
+	svcs      []svcInfo           // every hostname that exists, for destinations
+	gwNames   []string            // ns/name of generated Gateways
+	multiNS   string              // hostname planted in several namespaces with equal timestamps
+	dnsEps    bool                // some DNS ServiceEntry has endpoints
+	p2NS      string              // namespace of the second sidecar proxy (drawn first so that shapes can be planted around it)
 }
 
 type svcInfo struct {
@@ -138,11 +139,25 @@ func (w *world) ts() time.Time {
 
 // name draws an object name whose lexical order is unrelated to creation order.
 func (w *world) name(prefix, ns string) string {
+	// Names repeat across namespaces in real meshes ("reviews" in team-a and team-b): in a third of the draws reuse a
+	// name this kind already has in ANOTHER namespace, so that (creation time, name) ties between namespaces occur
+	// and only the namespace can break them.
+	if used := w.usedNames[prefix]; len(used) > 0 && w.r.Intn(3) == 0 {
+		n := used[w.r.Intn(len(used))]
+		if k := prefix + "/" + ns + "/" + n; !w.names[k] {
+			w.names[k] = true
+			return n
+		}
+	}
 	for {
 		n := fmt.Sprintf("%s-%s%d", prefix, string(rune('a'+w.r.Intn(26))), w.r.Intn(10))
 		k := prefix + "/" + ns + "/" + n
 		if !w.names[k] {
 			w.names[k] = true
+			if w.usedNames == nil {
+				w.usedNames = map[string][]string{}
+			}
+			w.usedNames[prefix] = append(w.usedNames[prefix], n)
 			return n
 		}
 	}
